@@ -4,6 +4,7 @@ import Pds.Proofs.SizingCuckoo
 import Pds.Props.C01
 import Pds.Props.C06
 import Pds.Props.C14
+import Pds.Props.C13
 /-!
 # C07 — filters built from accuracy targets (deterministic part)
 
@@ -244,5 +245,17 @@ example (hash : List Nat → Nat) :
 example : (50 : ℝ) / 2 ≤ (-100) / 2 * Real.log (1 - 50 / 100) ∧
     (-100 : ℝ) / 2 * Real.log (1 - 50 / 100) ≤ 50 / 2 * (1 + 50 / 100) :=
   bloom_len_bounds (by norm_num) (by norm_num) (by norm_num) (by norm_num)
+
+/-! ## Quotient filter clause (from the set refinement of C13) -/
+
+/-- A quotient filter holding `len` pairs answers `true` for exactly `len` of the `N · 2^r`
+(quotient, remainder) pairs (`N = 2^q` slots): a fresh element, whose pair a uniform hash draws
+uniformly, is a false positive with frequency exactly `len · 2^-(q+r)` — never more, because no
+slot bookkeeping adds positives. -/
+theorem quotient_fp_exact {N : Nat} {t : Pds.Quotient.St N} {S : Finset (Fin N × Nat)}
+    (hr : Pds.Quotient.Rep t S) (R : Nat) (hR : ∀ p ∈ S, p.2 < R) :
+    ((Finset.univ ×ˢ Finset.range R).filter
+      (fun p : Fin N × Nat => Pds.Quotient.present t p.1 p.2 = true)).card = t.n :=
+  Pds.Props.C13.count_present hr R hR
 
 end Pds.Props.C07
